@@ -710,7 +710,7 @@ impl<'a> Edata<'a> {
         key: &PlainSessionKey,
         options: DecryptionOptions,
     ) -> Result<()> {
-        let protected = self.tag() == Tag::SymEncryptedProtectedData;
+        let protected = matches!(self, Self::SymEncryptedProtectedData { .. });
         debug!("decrypt_permissive {options:?}: protected = {protected:?}");
 
         match self {
